@@ -241,6 +241,32 @@ def run(ctx):
               "the sample must be restricted to finite values before any "
               "statistic", node=fin[0] if fin else clip.node)
     cname = norm(fin[0].targets[0]) if fin else "clipped"
+    # NaN is returned only for an EMPTY finite sample: a single finite value
+    # has mean = value and std = 0 (boxes of one pixel occur at the image
+    # corner for the smallest allowed box sizes)
+    nanrets = []
+    pmc = {}
+    for x in ast.walk(clip.node):
+        for ch in ast.iter_child_nodes(x):
+            pmc[ch] = x
+    for s_ in walk_no_nested(clip.node):
+        if isinstance(s_, ast.Return) and isinstance(s_.value, ast.Tuple) \
+                and [norm(e) for e in s_.value.elts] == ["np.nan", "np.nan"]:
+            g_ = pmc.get(s_)
+            nanrets.append((s_, g_.test if isinstance(g_, ast.If) else None))
+    for s_, t_ in nanrets:
+        ok_empty = False
+        if t_ is not None:
+            tt = norm(t_).replace(" ", "")
+            ok_empty = tt in ("len(%s)<1" % cname, "len(%s)==0" % cname,
+                              "notlen(%s)" % cname, "%s.size==0" % cname,
+                              "%s.size<1" % cname)
+        ctx.check("C06-R2", clip, "NaN only for an empty sample: if %s" %
+                  (norm(t_) if t_ is not None else "?"), ok_empty,
+                  "sigmaclip returns NaN although the sample may hold finite "
+                  "values: a one-pixel box (image corner, box size 4-5) "
+                  "yields a NaN grid node and a NaN patch in both maps of an "
+                  "image without blank pixels", node=s_)
     stats_ok = True
     nstats = 0
     for s in walk_no_nested(clip.node):
